@@ -406,6 +406,10 @@ impl Hooks for SimHooks {
                     });
                 }
             }
+            Point::StopSignalled => {
+                sh.ctx(|ctx| ev!(ctx, "server: accept thread told to stop, workers not yet"));
+                crate::stop_window(sh);
+            }
             Point::WorkerStarting(idx) => {
                 // the slot is created here so that service instances built by the factories can be
                 // attributed to it; the future arrives in adopt_worker
